@@ -17,7 +17,7 @@ import (
 // Rule is one rewrite rule.  Every rule must match at least Min sites (default 1) or the
 // tool fails: a seam that silently disappears would silently remove a fault dimension.
 type Rule struct {
-	Kind string `json:"kind"` // callsel | lockgate | wrapfunc | orderedrange | addimport
+	Kind string `json:"kind"` // callsel | lockgate | rwgate | wrapfunc | orderedrange | append | addimport
 	File string `json:"file"` // path relative to the repo root
 	Min  int    `json:"min"`
 
@@ -230,6 +230,41 @@ func apply(fset *token.FileSet, f *ast.File, r Rule) (int, []string, error) {
 				&ast.BasicLit{Kind: token.STRING, Value: strconv.Quote(site)},
 			}
 			ce.Fun = &ast.SelectorExpr{X: ast.NewIdent(r.NewX), Sel: ast.NewIdent("Lock")}
+			n++
+			return true
+		})
+	case "rwgate":
+		// EXPR.Lock()/Unlock()/RLock()/RUnlock() -> NewX.RWLock(&EXPR, "site") etc.: a
+		// sync.RWMutex whose acquisitions become scheduling points with Go's writer preference
+		scope(func(nd ast.Node) bool {
+			ce, ok := nd.(*ast.CallExpr)
+			if !ok || len(ce.Args) != 0 {
+				return true
+			}
+			se, ok := ce.Fun.(*ast.SelectorExpr)
+			if !ok || exprString(fset, se.X) != r.Expr {
+				return true
+			}
+			var fn string
+			switch se.Sel.Name {
+			case "Lock":
+				fn = "RWLock"
+			case "Unlock":
+				fn = "RWUnlock"
+			case "RLock":
+				fn = "RWRLock"
+			case "RUnlock":
+				fn = "RWRUnlock"
+			default:
+				return true
+			}
+			pos := fset.Position(ce.Pos())
+			site := fmt.Sprintf("%s:%d", filepath.Base(pos.Filename), pos.Line)
+			ce.Args = []ast.Expr{&ast.UnaryExpr{Op: token.AND, X: se.X}}
+			if fn == "RWLock" || fn == "RWRLock" {
+				ce.Args = append(ce.Args, &ast.BasicLit{Kind: token.STRING, Value: strconv.Quote(site)})
+			}
+			ce.Fun = &ast.SelectorExpr{X: ast.NewIdent(r.NewX), Sel: ast.NewIdent(fn)}
 			n++
 			return true
 		})
